@@ -29,7 +29,9 @@ def make_batch(n, c, h, w, seed=0, scale=1.0, dtype=None):
     sens = sens / (sens**2).sum(dim=(1, -1), keepdim=True).sqrt()
     # per-sample scaling factors (as the data pipeline computes them), for the models that take them
     sf = 0.5 + 2.0 * torch.rand(n, generator=g, dtype=dt)
-    return {"kspace": torch.where(mask, ks, torch.zeros(1, dtype=dt)), "mask": mask, "sens": sens, "scaling_factor": sf}
+    # an initial image as a network hands it on: channels-first storage viewed channels-last (dense, not contiguous)
+    img = (torch.randn(n, 2, h, w, generator=g, dtype=dt) * scale).permute(0, 2, 3, 1)
+    return {"kspace": torch.where(mask, ks, torch.zeros(1, dtype=dt)), "mask": mask, "sens": sens, "scaling_factor": sf, "image": img}
 
 
 def entries():
@@ -105,6 +107,10 @@ def entries():
         return [m(input_image=None, masked_kspace=b["kspace"], sampling_mask=b["mask"], sensitivity_map=b["sens"])[0][-1]]
 
     add("RIM", lambda: RIM(F, B, hidden_channels=4, length=2, depth=1), rim_call, "image_cf", 1)
+    def rim_call_img(m, b):
+        return [m(input_image=b["image"], masked_kspace=b["kspace"], sampling_mask=b["mask"], sensitivity_map=b["sens"])[0][-1]]
+
+    add("RIM:given-initial-image", lambda: RIM(F, B, hidden_channels=4, length=2, depth=1, skip_connections=True), rim_call_img, "image_cf", 1)
     add("RIM:instance_norm-dense", lambda: RIM(F, B, hidden_channels=4, length=2, depth=2, instance_norm=True, dense_connect=True, no_parameter_sharing=False), rim_call, "image_cf", 1)
     add("RIM:sense-learned-init-normalized", lambda: RIM(F, B, hidden_channels=4, length=2, depth=1, image_initialization="sense", learned_initializer=True, initializer_channels=(4, 4, 4, 4), normalized=True), rim_call, "image_cf", 1)
 
@@ -150,6 +156,9 @@ def entries():
     add("RecurrentVarNet", lambda: RecurrentVarNet(F, B, num_steps=2, recurrent_hidden_channels=4, recurrent_num_layers=2), kms, "kspace", 1, coil_invariant=False)
     add("RecurrentVarNet:learned-init-normalized", lambda: RecurrentVarNet(F, B, num_steps=2, recurrent_hidden_channels=4, recurrent_num_layers=2, no_parameter_sharing=False, learned_initializer=True, initializer_initialization=InitType.SENSE, initializer_channels=(4, 4, 4, 4), normalized=True), kms, "kspace", 1, coil_invariant=False)
 
+    add("RecurrentVarNet:multiscale-init", lambda: RecurrentVarNet(F, B, num_steps=2, recurrent_hidden_channels=4, recurrent_num_layers=2, learned_initializer=True, initializer_initialization=InitType.SENSE, initializer_channels=(4, 4, 4, 4), initializer_multiscale=3), kms, "kspace", 1, coil_invariant=False)
+    add("RIM:multiscale-init", lambda: RIM(F, B, hidden_channels=4, length=2, depth=2, image_initialization="sense", learned_initializer=True, initializer_channels=(4, 4, 4, 4), initializer_multiscale=2), rim_call, "image_cf", 1)
+
     from direct.nn.cirim.cirim import CIRIM
 
     def cirim_call(m, b):
@@ -181,6 +190,7 @@ def entries():
         return list(m(b["kspace"], b["sens"], b["mask"]))
 
     add("VSharpNet:unet", lambda: VSharpNet(F, B, num_steps=2, num_steps_dc_gd=2, image_model_architecture=ModelName.UNET, initializer_channels=(4, 4, 4, 4), auxiliary_steps=-1, image_unet_num_filters=4, image_unet_num_pool_layers=2), vs_call, "image", 4, unet=2)
+    add("VSharpNet:multiscale-init", lambda: VSharpNet(F, B, num_steps=2, num_steps_dc_gd=1, image_model_architecture=ModelName.CONV, initializer_channels=(4, 4, 4, 4), initializer_multiscale=2, auxiliary_steps=-1, image_conv_hidden_channels=4, image_conv_n_convs=2), vs_call, "image", 1)
     add("VSharpNet:didn-aux", lambda: VSharpNet(F, B, num_steps=2, num_steps_dc_gd=1, no_parameter_sharing=False, image_model_architecture=ModelName.DIDN, initializer_channels=(4, 4, 4, 4), auxiliary_steps=1, image_didn_hidden_channels=4, image_didn_num_dubs=1, image_didn_num_convs_recon=1), vs_call, "image", 3)
     return out
 
